@@ -253,6 +253,8 @@ def check_C13(ctx):
     ctx.assumptions += ["the design-level run is the renumbering model Walrus.tla (names ride on sigma); the name relation itself is only checked on the implementation"]
     # names of locals follow their locals through slot assignment (API-built functions, parameters in any allocation order): Locals.tla
     locals_oracle(ctx, "C13")
+    # names of the other entities through parse -> API edits / deletions / GC -> emit -> re-parse, by content: NameMap.tla
+    namemap_oracle(ctx)
 
 
 def check_C19(ctx):
@@ -719,6 +721,45 @@ def types_oracle(ctx, prop):
     os.environ["PROPERTY"] = prop
     cases = judge_shards(ctx, "Trace_Types", ["%s.%d" % (trace, k) for k in range(shards)], label="types", slim=lambda c: {"id": c["id"], "ops": [e["e"] for e in c["events"]]})
     ctx.notes["type_interner_behaviours"] = {"enumerated": len(a), "simulated": len(b), "replayed": len(cases)}
+    return cases
+
+
+def namemap_oracle(ctx):
+    """NameMap.tla (names resolved through the parse-time index map, carried by the entities, re-indexed at emission; the GC
+    rules that decide which tables / memories / segments survive): model checked, the two slip switches must each produce a
+    counterexample, every behaviour up to the bound enumerated by TLC, replayed on real Modules whose entities are recognisable
+    by content, and validated step by step (Trace_NameMap.tla)."""
+    import zlib
+    q = ctx.quick()
+    base = open(os.path.join(SPEC, "MC_NameMap.cfg")).read()
+    cfg = write_cfg("MC_NameMap_gen", base.replace("MaxOps = 3", "MaxOps = %d" % (3 if q else 4)))
+    model_check(ctx, "MC_NameMap", cfg=cfg, workers=8, label="design-namemap")
+    for flag in ("SkipActiveInIndex", "EmitBySlot"):
+        cfg = write_cfg("MC_NameMap_%s_gen" % flag, base.replace(flag + " = FALSE", flag + " = TRUE"))
+        r = tlc("MC_NameMap", cfg=cfg, workers=4, cont=False, name="namemap-" + flag)
+        if "is violated" not in r.out:
+            raise ToolError("vacuity: NameMap.tla with %s = TRUE satisfies every invariant" % flag)
+        ctx.add_mc(r, "design-namemap(%s: counterexample found, as it must be)" % flag)
+    raw = os.path.join(ctx.work, "namemap_hist")
+    cfg = write_cfg("Enum_NameMap_gen", open(os.path.join(SPEC, "Enum_NameMap.cfg")).read().replace("MaxOps = 3", "MaxOps = %d" % (3 if q else 4)))
+    r = tlc("MC_NameMap", cfg=cfg, workers=8, cont=False, capture=("CASE", raw + ".all"), name="enum-namemap")
+    ctx.add_mc(r, "enum-namemap-behaviours")
+    lines = sorted(set(open(raw + ".all")))
+    total = len(lines)
+    budget = 5000 if q else 120000
+    if len(lines) > budget:
+        lines = [l for l in lines if (zlib.crc32(l.encode()) + ctx.seed) % max(1, len(lines) // budget) == 0]
+    with open(raw + ".txt", "w") as f:
+        f.writelines(lines)
+    trace = os.path.join(ctx.work, "namemap.ndjson")
+    for f in os.listdir(ctx.work):
+        if f.startswith("namemap.ndjson"):
+            os.remove(os.path.join(ctx.work, f))
+    shards = 2 if q else 16
+    wv(["trace-namemap", "histories=" + raw + ".txt", "out=" + trace, "shards=%d" % shards])
+    cases = judge_shards(ctx, "Trace_NameMap", ["%s.%d" % (trace, k) for k in range(shards)], label="namemap",
+                         slim=lambda c: {"id": c["id"], "ops": [e["e"] for e in c["events"]]})
+    ctx.notes["namemap_behaviours"] = {"enumerated": total, "replayed": len(cases)}
     return cases
 
 
